@@ -33,6 +33,7 @@ def space(tier):
             spaces.ConfigDocSpace(spaces.block_space("wide", 2), ["default", "all"] + singles),
             spaces.ConfigDocSpace(spaces.ProductSpace("B(mli,4)", spaces.SIGMA_MLI, 4), ["default", "all"]),
             spaces.ConfigDocSpace(spaces.inline_wide_space(3, (0,))[0], ["default", "all"]),
+            spaces.ConfigDocSpace(spaces.mix_space(tier), ["default", "all"]),
         ]
     else:
         parts = [
@@ -43,6 +44,7 @@ def space(tier):
             spaces.ConfigDocSpace(spaces.block_space("wide", 2), ["default", "all"]),
             spaces.ConfigDocSpace(spaces.ProductSpace("B(mli,3)", spaces.SIGMA_MLI, 3), ["default", "all"]),
             spaces.ConfigDocSpace(spaces.inline_wide_space(2, (0,))[0], ["default", "all"]),
+            spaces.ConfigDocSpace(spaces.mix_space(tier), ["default", "all"]),
         ]
     return spaces.UnionSpace(f"scan-{tier}", parts)
 
